@@ -852,6 +852,7 @@ func ruleSyncArm(w *World, r *Report, pfx string) {
 			return
 		}
 		maps, tables, dists := 0, 0, 0
+		var distArgs []ssa.Value
 		for _, ev := range p.Events {
 			switch x := ev.In.(type) {
 			case *ssa.MakeMap:
@@ -862,11 +863,18 @@ func ruleSyncArm(w *World, r *Report, pfx string) {
 				}
 				if x.Call.StaticCallee() == syncWidthFn {
 					dists++
+					if len(x.Call.Args) > 0 {
+						distArgs = append(distArgs, p.stripR(p.val(ev, x.Call.Args[0])).V)
+					}
 				}
 			}
 		}
 		if dists != 2 {
 			bad = fmt.Sprintf("the sync arm starts the distributors for %d matrices (must be both the prepend and the append matrix)", dists)
+			return
+		}
+		if len(distArgs) == 2 && distArgs[0] == distArgs[1] {
+			bad = "the distributors are started twice for the same matrix: the decorators of the other side never get their column width and block forever"
 			return
 		}
 		last := p.Blocks[len(p.Blocks)-1]
